@@ -5,5 +5,9 @@ cd "$(dirname "$0")/harness"
 export CARGO_NET_OFFLINE=true
 cargo build --release -p pcv_core -p pcv_schema
 cargo build --profile plain -p pcv_core
-# prime the Miri sysroot and the interpreted build of the core worker (used by C04, C05, C11)
+# on its own: postcard-schema with `alloc` and without `use-std` (stage alloc of C14)
+cargo build --release -p pcv_alloc
+# prime the Miri sysroots (host and the 32-bit target of stage miri32) and the interpreted builds of the workers
 CARGO_TARGET_DIR="$PWD/target-miri" MIRIFLAGS="-Zmiri-disable-isolation" cargo +nightly miri run --release -p pcv_core -- NOOP || echo "setup: miri priming failed (miri stages will report inconclusive)"
+cargo +nightly miri setup --target i686-unknown-linux-gnu || echo "setup: miri sysroot for i686 failed (miri32 stages will report inconclusive)"
+CARGO_TARGET_DIR="$PWD/target-miri" MIRIFLAGS="-Zmiri-disable-isolation" cargo +nightly miri run --release -p pcv_core --target i686-unknown-linux-gnu -- NOOP || echo "setup: miri32 priming failed"
